@@ -210,6 +210,63 @@ def c_couple_grain(ctx, it, cfg):
     ctx.prove('drag-updated-from-the-host-before-solving', [e[0] for e in log] == ['zener', 'solve'] and log[0][1] is m)
 
 
+_T_USERS = ['coherencyWeak', 'coherencyStrong', 'modulusWeak', 'APBweak', 'APBstrong', 'interfacialWeak', 'SFEweak']
+
+
+@REG.contract('line-tension/every-mechanism-uses-the-configured-model', [ST + ':StrengthModel.setTmodel'] + [ST + ':StrengthModel.' + f for f in _T_USERS],
+              configs=[dict(name=m, model=m) for m in ('simple', 'complex')])
+def c_tmodel(ctx, it, cfg):
+    """every mixed-dislocation mechanism takes the line tension from the model chosen with setTmodel (at the configured dislocation character and the given
+    core radius) -- never from the other model: the result is then a function of that one line tension, which is what makes the mechanisms comparable"""
+    s = mk_strength(ctx, it, EFFECTS)
+    log = []
+    Tval = real(ctx, 'line_tension', lambda v: v > 0)
+    s.fields['Tsimple'] = lambda th, r0: (log.append(('simple', th, r0)), Tval)[1]
+    s.fields['Tcomplex'] = lambda th, r0: (log.append(('complex', th, r0)), Tval)[1]
+    s.setTmodel(cfg['model'])
+    r, Ls, r0 = real(ctx, 'r', lambda v: v > 0), real(ctx, 'Ls', lambda v: v > 0), real(ctx, 'r0', lambda v: v > 0)
+    ctx.domain_off = 1
+    for f in _T_USERS:
+        del log[:]
+        getattr(s, f)(r, Ls, r0)
+        ctx.prove('%s/line-tension-from-the-configured-model-only' % f, len(log) >= 1 and all(e[0] == cfg['model'] and e[1] is s.fields['theta'] and e[2] is r0 for e in log))
+    ctx.domain_off = 0
+
+
+@REG.contract('GrainGrowthModel/reset-restores-the-loaded-normalised-distribution', [GG + ':GrainGrowthModel.LoadDistribution', GG + ':GrainGrowthModel.LoadDistributionFunction',
+              GG + ':GrainGrowthModel.reset', GG + ':GrainGrowthModel.__init__'], configs=[dict(name=w, how=w) for w in ('from-data', 'from-a-function')])
+def c_gg_reset(ctx, it, cfg):
+    """loading a grain size distribution normalises it to unit total grain volume; reset() after any amount of solving returns to exactly that normalised distribution
+    (same classes, same grid, clock at zero) -- a second run starts from the same conserved volume as the first.  Grid of 3 classes (constructor argument; values symbolic)"""
+    g = it.get(GG, 'GrainGrowthModel')(real(ctx, 'cMin', lambda v: v > 0), real(ctx, 'cMax'), 3, 3, 6)
+    ctx.assume(gt(g.pbm.fields['max'], g.pbm.fields['min']))
+    nb = g.pbm.bins
+    if cfg['how'] == 'from-data':
+        D = integer(ctx, 'D', lambda v: v >= 1)
+        data = array(ctx, 'grain_radii', (D,), fact=lambda v, i: v > 0)
+        g.LoadDistribution(data)
+    else:
+        dens = array(ctx, 'density', (nb,), fact=lambda v, i: v > 0)
+        seen = []
+        g.LoadDistributionFunction(lambda R: (seen.append(R), dens)[1])
+        ctx.prove('density-function-asked-at-the-class-centres', len(seen) == 1 and seen[0] is g.pbm.fields['PSDsize'])
+    loaded, grid = snapshot(g.pbm.fields['PSD']), snapshot(g.pbm.fields['PSDbounds'])
+    loaded_arr = g.pbm.fields['PSD']
+    m3 = g.pbm.ThirdMoment()
+    ctx.assume(gt(m3, 0))            # a non-empty distribution
+    # any amount of solving: arbitrary distribution, clock and history
+    g.pbm.fields['PSD'] = array(ctx, 'psd_after_solving', (nb,))
+    g.fields['time'] = array(ctx, 'time_hist', (integer(ctx, 'steps', lambda v: v >= 1),))
+    g.fields['avgR'] = array(ctx, 'avgR_hist', (integer(ctx, 'steps'),))
+    g.fields['_z'] = real(ctx, 'drag_left_over')
+    g.reset()
+    unchanged(ctx, 'distribution-after-reset = loaded normalised distribution', loaded, g.pbm.fields['PSD'])
+    unchanged(ctx, 'grid-after-reset = loaded grid', grid, g.pbm.fields['PSDbounds'])
+    ctx.prove('reset-does-not-alias-the-stored-copy', g.pbm.fields['PSD'] is not g.fields['_oldPSD'])
+    ctx.prove('clock-and-drag-back-to-zero', and_(g.fields['time'].shape[0] == 1, eq(g.fields['time'].get(0), 0), eq(g.fields['_z'], 0)))
+    ctx.prove('total-grain-volume-after-reset-is-that-of-the-loaded-distribution', eq(g.pbm.ThirdMoment(), m3))
+
+
 @REG.contract('computeZenerRadius/drag-is-a-non-negative-sum-over-the-phases', [GG + ':GrainGrowthModel.computeZenerRadius', GG + ':GrainGrowthModel.computeZenerRadiusByN',
               GG + ':GrainGrowthModel.setZenerParameters'], configs=[dict(name=w, which=w) for w in ('recorded-step', 'from-a-distribution')])
 def c_zener(ctx, it, cfg):
